@@ -219,3 +219,44 @@ pub fn show_chunks(log: &[Vec<u8>]) -> String {
 pub fn abs(x: &BigInt) -> BigInt {
     x.abs()
 }
+
+/// number of bits of a non-negative integer
+pub fn bitlen(x: &BigInt) -> u64 {
+    x.bits()
+}
+/// chunk that makes `gen_biguint_below(bound)` return `value` (< bound) on its first attempt
+pub fn encode_below(bound: &BigInt, value: &BigInt) -> Vec<u8> {
+    let bits = bound.bits();
+    let rem = bits % 32;
+    let len = (bits / 32 + if rem > 0 { 1 } else { 0 }) as usize;
+    let (_, mut digits) = value.to_u32_digits();
+    digits.resize(len, 0);
+    if rem > 0 {
+        let last = len - 1;
+        digits[last] <<= 32 - rem;
+    }
+    let mut out = Vec::with_capacity(4 * len);
+    for d in digits {
+        out.extend_from_slice(&d.to_le_bytes());
+    }
+    out
+}
+/// chunk for `gen_bigint_range(lo, hi)` returning `value`
+pub fn encode_range(lo: &BigInt, hi: &BigInt, value: &BigInt) -> Vec<u8> {
+    encode_below(&(hi - lo), &(value - lo))
+}
+/// run `f` with the hooked RNG reset to (seed, script); returns (answer, log of chunks served)
+pub fn run_rng<F: FnOnce() -> String>(seed: u64, script: Vec<Vec<u8>>, f: F) -> (String, String) {
+    rust_number_theory::verif_hooks::reset(seed, script);
+    let ans = run(f);
+    let log = rust_number_theory::verif_hooks::take_log();
+    (ans, show_chunks(&log))
+}
+pub fn parse_chunks(s: &str) -> Vec<Vec<u8>> {
+    if s == "_" || s.is_empty() {
+        return vec![];
+    }
+    s.split(',')
+        .map(|c| (0..c.len() / 2).map(|i| u8::from_str_radix(&c[2 * i..2 * i + 2], 16).unwrap()).collect())
+        .collect()
+}
